@@ -37,7 +37,7 @@ ASSUMPTIONS = [
     "tolerance of clause (d) is calibrated: worst observed error on the unchanged tree is recorded in residuals",
     "time step 1 fs or 0.5 fs; bath correlation times >= 20 fs",
 ]
-BUDGET = {"quick": (60, 75), "thorough": (100, 900)}
+BUDGET = {"quick": (200, 80), "thorough": (300, 900)}
 
 
 def grid(tier):
@@ -64,8 +64,15 @@ def _dyn(draw, big):
     zero = draw(st.sampled_from([None, None, 0, 0, 1]))
     if zero is not None and zero < n and kind != "c":
         spec["bath"][zero] = dict(spec["bath"][zero], reorg=0)
+    # non-zero ground-state energies (a constant shift of the Hamiltonian; the rotating frame of ham.rwa_energies moves
+    # with it, so the dynamics in that frame are the same)
+    if draw(st.sampled_from([False, False, True])):
+        spec["ground"] = [draw(st.integers(0, 500)) for _ in range(n)]
     return {"kind": kind, "spec": spec, "A": A, "nt": nt, "dt": draw(st.sampled_from([1.0, 0.5])),
-            "depth": draw(st.integers(1, 3))}
+            "depth": draw(st.integers(1, 3)),
+            # how the hierarchy is obtained: constructor, or the aggregate's own interface after it has already handed
+            # out a hierarchy of another depth
+            "route": draw(st.sampled_from(["ctor", "ctor", "aggregate"]))}
 
 
 def strategy(tier):
@@ -150,11 +157,14 @@ def _index(case, ctx):
               rtol=1e-12, scale=max(1e-9, depth * float(numpy.max(gam))), where=where)
 
 
-def _propagate(qr, agg, depth, ta, rho0):
+def _propagate(qr, agg, depth, ta, rho0, route="ctor"):
     from quantarhei.qm.liouvillespace.heom import KTHierarchy, KTHierarchyPropagator
     ham = agg.get_Hamiltonian()
     sbi = agg.get_SystemBathInteraction()
-    hy = KTHierarchy(ham, sbi, depth)
+    if route == "aggregate":
+        hy = agg.get_KTHierarchy(depth)
+    else:
+        hy = KTHierarchy(ham, sbi, depth)
     prop = KTHierarchyPropagator(ta, hy)
     rt = prop.propagate(qr.ReducedDensityMatrix(data=rho0.copy()))
     return numpy.array(rt.data)
@@ -189,9 +199,23 @@ def _dynamics(case, ctx):
         ctx.close("dynamics/hermitian", data, numpy.conj(numpy.transpose(data, (0, 2, 1))), rtol=1e-10, scale=1.0,
                   where=tag)
 
+    route = case.get("route", "ctor")
+    ctx.label("route:" + route, "ground!=0" if spec.get("ground") and any(spec["ground"]) else "ground=0")
+    if route == "aggregate":
+        # the aggregate's own interface, asked for several depths in a row (a convergence study on one object): every
+        # hierarchy must have the requested depth and the complete index set of that depth
+        def sizes():
+            return [(d, int(h.depth), int(h.hsize)) for d, h in ((d, agg.get_KTHierarchy(d)) for d in (1, 3, 2))]
+        ok, got = guarded(ctx, "index/aggregate-interface", sizes)
+        if not ok:
+            return
+        for d, hd, hs in got:
+            if hd != d or hs != math.comb(n + d, d):
+                ctx.fail("index/aggregate-interface", "depth", requested=d, depth=hd, size=hs, want=math.comb(n + d, d))
+                return
     if kind in ("b", "c"):
         depth = case["depth"]
-        ok, data = guarded(ctx, "dynamics/propagate", lambda: _propagate(qr, agg, depth, ta, rho0), kind)
+        ok, data = guarded(ctx, "dynamics/propagate", lambda: _propagate(qr, agg, depth, ta, rho0, route), kind)
         if not ok:
             return
         if data.shape != (nt, n + 1, n + 1):
@@ -227,7 +251,7 @@ def _dynamics(case, ctx):
                 ref[:, a, c] = rho0[a, c] * numpy.exp(-1j * (Hr[a, a] - Hr[c, c]) * t - g[a] - numpy.conj(g[c]))
     errs = []
     for depth in depths:
-        ok, data = guarded(ctx, "dynamics/propagate", lambda: _propagate(qr, agg, depth, ta, rho0), "d")
+        ok, data = guarded(ctx, "dynamics/propagate", lambda: _propagate(qr, agg, depth, ta, rho0, route), "d")
         if not ok:
             return
         valid(data, "d")
